@@ -2,6 +2,7 @@ package main
 
 import (
 	"fmt"
+	"runtime"
 	"strconv"
 	"strings"
 	"sync"
@@ -22,6 +23,9 @@ func init() {
 func execTaskQ(args []string) string {
 	if args[0] == "conc" {
 		return execTaskQConc(args[1:])
+	}
+	if args[0] == "pingpong" {
+		return execTaskQPingPong(args[1:])
 	}
 	if args[0] != "1" {
 		return "bad-op only-max-1-is-constructible"
@@ -191,6 +195,62 @@ func execTaskQConc(args []string) string {
 	return "ok"
 }
 
+// execTaskQPingPong: G goroutines each submit a task and wait for it to finish, N times. The queue goes
+// idle and busy again all the time, so submissions keep racing with the worker's "queue empty, retire"
+// step and with each other on an idle queue: the two windows in which a non-atomic Push strands a task or
+// starts a second worker. A stranded task shows as a time-out, a second worker as two tasks at once.
+func execTaskQPingPong(args []string) string {
+	G, _ := strconv.Atoi(args[0])
+	N, _ := strconv.Atoi(args[1])
+	h := newRecorder()
+	conn, _, _, err := serverConnRaw(&gws.ServerOption{}, h, "")
+	if err != nil {
+		return "handshake-failed"
+	}
+	var running, bad, ran int32
+	var wg sync.WaitGroup
+	stranded := make(chan string, G)
+	for g := 0; g < G; g++ {
+		wg.Add(1)
+		go func(g int) {
+			defer wg.Done()
+			for i := 0; i < N; i++ {
+				done := make(chan struct{})
+				conn.Async(func() {
+					if atomic.AddInt32(&running, 1) > 1 {
+						atomic.StoreInt32(&bad, 1)
+					}
+					atomic.AddInt32(&ran, 1)
+					if i%3 == 0 {
+						runtime.Gosched() // lengthen some tasks so that submitters often find the worker busy
+					}
+					atomic.AddInt32(&running, -1)
+					close(done)
+				})
+				select {
+				case <-done:
+				case <-time.After(3 * time.Second):
+					stranded <- fmt.Sprintf("STRANDED: task %d of goroutine %d never ran", i, g)
+					return
+				}
+			}
+		}(g)
+	}
+	wg.Wait()
+	select {
+	case msg := <-stranded:
+		return msg
+	default:
+	}
+	if atomic.LoadInt32(&bad) != 0 {
+		return "two tasks ran at the same time"
+	}
+	if int(atomic.LoadInt32(&ran)) != G*N {
+		return fmt.Sprintf("ran %d of %d", ran, G*N)
+	}
+	return "ok"
+}
+
 func genTaskQ(g *Gen) {
 	// exhaustive: every sequence of {push a new task, complete the running task} up to the depth
 	depth := g.pick(10, 13)
@@ -228,5 +288,8 @@ func genTaskQ(g *Gen) {
 	}
 	for i := 0; i < g.pick(5, 50); i++ {
 		g.Emit("taskq conc %d %d %d", 2+g.R.Intn(15), 50+g.R.Intn(500), i)
+	}
+	for i := 0; i < g.pick(6, 40); i++ {
+		g.Emit("taskq pingpong %d %d %d", 2+g.R.Intn(14), g.pick(3000, 20000), i)
 	}
 }
